@@ -264,7 +264,14 @@ def run(case):
             uex = mesh.points @ (F0 - np.eye(d)).T
             if fam.endswith("mini"):
                 uex[np.unique(mesh.cells[:, -1])] = 0.0  # hierarchical bubble dof of an affine field
-            bounds = {"all": fem.Boundary(field[0], mask=onb, value=uex[onb])}
+            # the prescribed vectors (one row per boundary point) in three memory layouts: C, Fortran, and the transposed
+            # view that the natural expression (H X^T)^T produces
+            vb = uex[onb]
+            if k == 1:
+                vb = np.asfortranarray(vb)
+            elif k == 2:
+                vb = np.ascontiguousarray(vb.T).T
+            bounds = {"all": fem.Boundary(field[0], mask=onb, value=vb)}
             dof0, dof1 = fem.dof.partition(field, bounds)
             ext0 = fem.dof.apply(field, bounds, dof0)
             body = fem.SolidBody(um, field)
